@@ -171,6 +171,33 @@ func (in *inst) block(b *ast.BlockStmt) {
 	b.List = in.list(b.List)
 }
 
+// markAtomic: closures handed to xsync's Compute family run under a bucket lock of the map; whatever they
+// call must not be descheduled there (see vy.Atomic).
+func markAtomic(f *ast.File) {
+	ast.Inspect(f, func(n ast.Node) bool {
+		call, ok := n.(*ast.CallExpr)
+		if !ok {
+			return true
+		}
+		sel, ok := call.Fun.(*ast.SelectorExpr)
+		if !ok {
+			return true
+		}
+		switch sel.Sel.Name {
+		case "Compute", "LoadOrCompute", "LoadOrTryCompute":
+		default:
+			return true
+		}
+		for _, a := range call.Args {
+			if lit, ok := a.(*ast.FuncLit); ok && lit.Body != nil {
+				enter := &ast.DeferStmt{Call: &ast.CallExpr{Fun: &ast.CallExpr{Fun: &ast.SelectorExpr{X: ast.NewIdent("vy"), Sel: ast.NewIdent("Atomic")}}}}
+				lit.Body.List = append([]ast.Stmt{enter}, lit.Body.List...)
+			}
+		}
+		return true
+	})
+}
+
 func main() {
 	if len(os.Args) < 3 {
 		fmt.Fprintln(os.Stderr, "usage: yieldgen <out-dir> <file.go>...")
@@ -185,6 +212,7 @@ func main() {
 			os.Exit(2)
 		}
 		in := &inst{fset: fset, file: filepath.Base(path)}
+		markAtomic(f)
 		for _, d := range f.Decls {
 			if fd, ok := d.(*ast.FuncDecl); ok && fd.Body != nil {
 				in.block(fd.Body)
